@@ -1,0 +1,52 @@
+//go:build verif
+
+// Export shim for the verification harness in /verif (build tag `verif`). It only adds exported wrappers around the
+// unexported in-flight request handler; it changes no behaviour and is compiled out of normal builds.
+package client
+
+import (
+	"context"
+	"time"
+
+	"github.com/datastax/go-cassandra-native-protocol/frame"
+)
+
+// VerifHandler wraps an inFlightRequestsHandler.
+type VerifHandler struct {
+	h      *inFlightRequestsHandler
+	cancel context.CancelFunc
+}
+
+func VerifNewHandler(maxInFlight int, maxPending int, timeout time.Duration) *VerifHandler {
+	ctx, cancel := context.WithCancel(context.Background())
+	return &VerifHandler{h: newInFlightRequestsHandler("verif", ctx, maxInFlight, maxPending, timeout), cancel: cancel}
+}
+
+// Send is onOutgoingFrameEnqueued: the frame's stream id is updated when it is managed.
+func (v *VerifHandler) Send(f *frame.Frame) (InFlightRequest, error) { return v.h.onOutgoingFrameEnqueued(f) }
+
+// Deliver is onIncomingFrameReceived.
+func (v *VerifHandler) Deliver(f *frame.Frame) error { return v.h.onIncomingFrameReceived(f) }
+
+func (v *VerifHandler) Close() { v.h.close() }
+
+// CancelContext cancels the context the handler (and every request) was created with.
+func (v *VerifHandler) CancelContext() { v.cancel() }
+
+// InFlightCount is len(h.inFlight) under the read lock.
+func (v *VerifHandler) InFlightCount() int {
+	v.h.inFlightLock.RLock()
+	defer v.h.inFlightLock.RUnlock()
+	return len(v.h.inFlight)
+}
+
+// FreeIds is the number of stream ids currently available in the pool (0 after close).
+func (v *VerifHandler) FreeIds() int {
+	if v.h.streamIds == nil {
+		return 0
+	}
+	return len(v.h.streamIds)
+}
+
+// VerifIsLastFrame exposes isLastFrame.
+func VerifIsLastFrame(f *frame.Frame) bool { return isLastFrame(f) }
